@@ -1,7 +1,7 @@
 (* C07 - every frame handed to sendall is one line of valid UTF-8 *)
 From Coq Require Import List Arith NArith Bool Lia.
 Import ListNotations.
-Require Import FV.Gen.C07 FV.C07.Model FV.C07.Lemmas FV.C07.Utf8.
+Require Import FV.Gen.C07 FV.C07.Model FV.C07.Lemmas FV.C07.Utf8 FV.C07.Repl.
 Local Open Scope N_scope.
 
 (* a character that can be encoded and is not the line terminator *)
@@ -240,8 +240,10 @@ Proof.
     + cbn [fst outcome_good]. destruct consts_parts as [_ [P2 [_ [P4 _]]]]. split; [exact P4|]. unfold gmsg. rewrite P2. reflexivity.
     + apply dispatch_good; assumption.
   - cbn [fst outcome_good]. split; [reflexivity|].
-    pose proof (byte_line_good _ HB) as GL.
-    pose proof (splitsp_good error_split_max (bstrip line) (gstr_strip is_bspace line GL)) as GF.
+    assert (GR : gstr (utf8_dec_repl (bstrip line)) = true).
+    { apply gstr_intro; [apply repl_scalar|]. apply repl_no_eol. intro Hin. apply strip_incl in Hin.
+      destruct HB as [_ HB]. apply HB. exact Hin. }
+    pose proof (splitsp_good error_split_max (utf8_dec_repl (bstrip line)) GR) as GF.
     apply err_reply_good; [apply nth_good; exact GF|apply nth_error_good; exact GF|apply consts_parts].
 Qed.
 
